@@ -75,7 +75,8 @@ Theorem C03_routed_frame :
   (forall j, j <> i -> nth_error (st_sessions st') j = nth_error (st_sessions st) j) /\
   (exists s', nth_error (st_sessions st') i = Some s' /\ same_ident s s') /\
   length (st_sessions st') = length (st_sessions st) /\
-  st_groups st' = st_groups st /\ st_gstore st' = st_gstore st.
+  st_groups st' = st_groups st /\
+  (group_sender s (o_plain out) = None -> st_gstore st' = st_gstore st).
 Proof. exact routed_frame. Qed.
 Print Assumptions C03_routed_frame.
 
@@ -85,6 +86,7 @@ Theorem C03_replay_frame :
   decode_packet W o st from wire = (st', out) ->
   o_verdict out = Routed i r ->
   find_sess (st_sessions st) from (o_plain out) = Some (i, s) ->
+  group_sender s (o_plain out) = None ->
   snd (post_recv (ps_win s) (p_ctr (o_plain out)) (mode_enc (ps_mode s)) false) = false ->
   st' = st /\ r = Err ERR_DUPLICATE.
 Proof. exact replay_frame. Qed.
@@ -191,7 +193,7 @@ Theorem C03_encode_decode_roundtrip :
   session_encode W s p x payload = Ok wire ->
   find_sess (st_sessions stB) from p = Some (i, r) ->
   decode_packet W o stB from wire =
-    route stB i r p (adjust_rel (addr_reliable (ps_addr r)) x) payload.
+    route_existing stB i r p (adjust_rel (addr_reliable (ps_addr r)) x) payload.
 Proof. exact encode_decode_roundtrip. Qed.
 Print Assumptions C03_encode_decode_roundtrip.
 
@@ -208,7 +210,7 @@ Theorem C03_roundtrip :
   pre_send s None gctr sai x = (s', Ok (p, x')) ->
   session_encode W s' p x' payload = Ok wire ->
   decode_packet W o stB from wire =
-    route stB i r p (adjust_rel (addr_reliable (ps_addr r)) x') payload.
+    route_existing stB i r p (adjust_rel (addr_reliable (ps_addr r)) x') payload.
 Proof. exact roundtrip. Qed.
 Print Assumptions C03_roundtrip.
 
@@ -227,6 +229,20 @@ Theorem C03_group_encode_auth :
   auth_check W stB from wire = AuthGroup c p (adjust_rel (addr_reliable from) x) payload.
 Proof. exact group_encode_auth. Qed.
 Print Assumptions C03_group_encode_auth.
+
+(** * A group data message on its sender's living session still passes the group counter store *)
+
+Theorem C03_group_replay_rejected :
+  forall (W : world) (o : oracle) (st : pstate) (from : addr) (wire : list N) (i : nat)
+         (p : plain_hdr) (x : proto_hdr) (payload : list N) (s : psess) (fab src : N),
+  auth_check W st from wire = AuthSession i p x payload ->
+  find_sess (st_sessions st) from p = Some (i, s) ->
+  group_sender s p = Some (fab, src) ->
+  snd (g_post_recv (st_gstore st) fab src (p_ctr p)) = false ->
+  o_verdict (snd (decode_packet W o st from wire)) = RejGroupDup /\
+  st_sessions (fst (decode_packet W o st from wire)) = st_sessions st.
+Proof. exact group_replay_rejected. Qed.
+Print Assumptions C03_group_replay_rejected.
 
 (** * The monitor run on the implementation *)
 
@@ -322,3 +338,54 @@ Qed.
 
 Example C03_ex_auth : auth_check ex_W ex_st ex_addrA ex_wire = AuthSession 0 ex_p ex_x ex_payload.
 Proof. vm_compute. reflexivity. Qed.
+
+(** * The group replay through a sender's ephemeral session (was a C04 defect,
+    repaired by 6198879).  Before the repair, while the ephemeral receive-side
+    group session of a sender existed, that sender's later group datagrams were
+    judged by the SESSION's window only: a datagram whose counter the group
+    counter store had already recorded (690, delivered earlier through a session
+    that is gone) was delivered again when it fell into the 16 counters behind
+    the newer one (700) that created the present session.  Now the store is
+    consulted on that path too: [Duplicate], with or without the session. *)
+Definition obs_src : N := 100.
+Definition obs_c : gcand := mkGC 1 0 257 1001 24673.
+Definition obs_p : plain_hdr := mkPlain 6 24673 1 690 obs_src 257.
+Definition obs_x : proto_hdr := mkProto 83 1 1 8 0 0.
+Definition obs_ct : list N := [1;1;2;3;5;8;13;21;34;55;89;144;233;1;2;3;4;5;6;7;8;9;10].
+Definition obs_W : world :=
+  [(Aead 1001 (nonce 1 690 obs_src) (plain_encode obs_p) (proto_encode obs_x ++ [7]), obs_ct)].
+Definition obs_store : gstore := mkGS [mkGE 1 obs_src (mkRx true 700 512) 2] 2.
+Definition obs_sess : psess :=
+  mkPS 5 ex_addrA 0 (Some obs_src) 1001 1001 24673 24673 0 (mkRx true 700 0) (MGroup 1 257) []
+       false false.
+
+(** what the code did before the repair: [post_recv] straight after
+    authentication - the session's window takes 690 although the store knows it *)
+Example C03_obs_group_replay_before_fix :
+  o_verdict (snd (route (mkSt [obs_sess] [obs_c] obs_store 6) 0 obs_sess obs_p obs_x [7]))
+    = Routed 0 (Ok true) /\
+  snd (g_post_recv obs_store 1 obs_src 690) = false.
+Proof. vm_compute. split; reflexivity. Qed.
+
+(** the repaired code *)
+Example C03_obs_group_replay_through_session :
+  o_verdict (snd (decode_packet obs_W (mkOr 0 None) (mkSt [obs_sess] [obs_c] obs_store 6) ex_addrA
+                                (plain_encode obs_p ++ obs_ct))) = RejGroupDup /\
+  st_sessions (fst (decode_packet obs_W (mkOr 0 None) (mkSt [obs_sess] [obs_c] obs_store 6) ex_addrA
+                                  (plain_encode obs_p ++ obs_ct))) = [obs_sess].
+Proof. vm_compute. split; reflexivity. Qed.
+
+Example C03_obs_group_replay_without_session :
+  o_verdict (snd (decode_packet obs_W (mkOr 0 None) (mkSt [] [obs_c] obs_store 6) ex_addrA
+                                (plain_encode obs_p ++ obs_ct))) = RejGroupDup.
+Proof. vm_compute. reflexivity. Qed.
+
+(** a groupcast message naming another group is not looked up to a living group
+    session of that sender, even if it shares the session's key and session id
+    (repair a2da8bb; before it the session labelled 257 took it) *)
+Example C03_obs_other_group_not_matched :
+  is_for_rx obs_sess ex_addrA (mkPlain 6 24673 1 702 obs_src 258) = false /\
+  is_for_rx obs_sess ex_addrA (mkPlain 6 24673 1 702 obs_src 257) = true /\
+  (* a unicast-addressed group control message names no group and still matches *)
+  is_for_rx obs_sess ex_addrA (mkPlain 5 24673 65 702 obs_src 0) = true.
+Proof. vm_compute. repeat split. Qed.
